@@ -35,6 +35,7 @@ StepReset ==
     /\ Ev.ev = "Reset"
     /\ store' = {} /\ inQ' = <<>> /\ pruneQ' = <<>>
     /\ applied' = {} /\ ingested' = {} /\ last' = NoEvent
+    /\ UNCHANGED ivars
 
 StepSubmit ==
     /\ Ev.ev = "Submit"
